@@ -67,7 +67,7 @@ ASSUMPTIONS = [
 RULE = ('directed prefix (one case per validator branch, the witnesses of the findings, invalid defaults) + exhaustive small-scope grid: '
         'Number/Integer bounds from {None,-1,0,1,2,-inf,inf}^2 x 4 inclusivities x allow_None on/off x ~60 values (None, bools, ints, '
         'floats incl. nan/inf and the float neighbours of every bound, Fraction, Decimal, big ints, str, bytes, containers, dates, '
-        'callables, classes, instances); Range the same bounds x step {None,1,-1} x pairs; length grids for the Tuple family and List, '
+        'callables, classes, instances; Integer with a 38-value pool in the quick tier); Range the same bounds x step {None,1,-1} x ~90 pairs (every third declaration in the quick tier); length grids for the Tuple family and List, '
         'item types, Selector object lists x check_on_set x allow_None, class lattices for ClassSelector, date bounds for the four date '
         'types, every CSS3 colour name x case variants + hex strings of length 0..8, regexes; every value through 5 routes. thorough adds '
         'float-valued bounds and random declarations/values. non-trivial = constructor succeeded, at least one value accepted and one '
@@ -956,9 +956,51 @@ def cases(rng, tier, worker, nworkers):
             i += 1
             if i % nworkers == worker:
                 yield c
-    n_random = 150 if tier == 'quick' else 24000 // nworkers
+    n_random = 150 if tier == 'quick' else 64000 // nworkers
     for _ in range(n_random):
         yield random_case(rng)
+
+
+# ------------------------------------------------------------------ source fragments (evidence only)
+
+EXPECTED_FORMS = {
+    'Number._validate_bounds': ['not val <= vmax', 'not val < vmax', 'not val >= vmin', 'not val > vmin'],
+    'Range._validate_bounds': ['vmin is not None and (not (v >= vmin if incmin else v > vmin))',
+                               'vmax is not None and (not (v <= vmax if incmax else v < vmax))'],
+    'List._validate_bounds': ['not min_length <= l <= max_length', 'not min_length <= l', 'not l <= max_length'],
+    'Range._validate_order': ['step is not None and step > 0 and (not start <= end)',
+                              'step is not None and step < 0 and (not start >= end)'],
+    'DateRange._validate_value': ['not end >= start'],
+    'CalendarDateRange._validate_value': ['not end >= start'],
+}
+
+
+def extract():
+    """comparison skeleton of the bounds validators, read from the current source: the forms the
+    hand-written model mirrors.  Recorded in the evidence; `changed` lists the functions whose forms
+    are no longer the ones the model was written against (the correspondence run is what decides)."""
+    import ast
+    import os
+    from harness import common
+    out = {}
+    try:
+        tree = ast.parse(open(os.path.join(common.REPO, 'param/parameters.py')).read())
+        for qual in EXPECTED_FORMS:
+            node = tree
+            for part in qual.split('.'):
+                node = next(n for n in ast.walk(node) if isinstance(n, (ast.FunctionDef, ast.ClassDef)) and n.name == part)
+            forms = []
+            for n in ast.walk(node):
+                if isinstance(n, ast.If) and any(isinstance(x, ast.Compare) and any(isinstance(o, (ast.Lt, ast.LtE, ast.Gt, ast.GtE)) for o in x.ops)
+                                                 for x in ast.walk(n.test)):
+                    forms.append(ast.unparse(n.test))
+                elif isinstance(n, ast.Assign) and isinstance(n.targets[0], ast.Name) and n.targets[0].id in ('too_low', 'too_high'):
+                    forms.append(ast.unparse(n.value))
+            out[qual] = forms
+        out['changed'] = sorted(q for q in EXPECTED_FORMS if sorted(out.get(q, [])) != sorted(EXPECTED_FORMS[q]))
+    except Exception as e:   # an unrecognised source shape is information, not an error
+        out['unrecognised'] = f'{type(e).__name__}: {e}'[:200]
+    return out
 
 
 # ------------------------------------------------------------------ reporting hooks
